@@ -5,6 +5,8 @@ import (
 	"errors"
 	"fmt"
 	"math/rand"
+	"os"
+	"runtime"
 	stdsync "sync"
 	"time"
 
@@ -25,7 +27,8 @@ type Decision struct {
 	Op    string   `json:"op"`             // src | resp | sync
 	Kind  string   `json:"kind,omitempty"` // resp: block | latest
 	H     uint64   `json:"h,omitempty"`    // resp/block: requested height
-	R     string   `json:"r,omitempty"`    // resp: ok | bad | err
+	R     string   `json:"r,omitempty"`    // resp: ok | bad | fg (forged) | wh (wrong height) | err
+	BH    int      `json:"bh,omitempty"`   // resp wh: height of the block that is served instead
 	Ver   int      `json:"ver,omitempty"`  // resp ok/bad: answering version
 	SH    int      `json:"sh,omitempty"`   // resp/latest ok: height of the header served
 	Corr  string   `json:"corr,omitempty"` // resp bad: corruption kind
@@ -66,7 +69,8 @@ type reply struct {
 // a block answer handed to the node; Persisted tells what became of it
 type delivery struct {
 	rid, tag, ver int
-	h             uint64
+	h             uint64 // requested height
+	bh            uint64 // number of the block that was served
 	r, corr       string
 	seq           int
 	persisted     chan error
@@ -105,6 +109,8 @@ type run struct {
 	rng       *rand.Rand
 	note      string
 	broken    string
+	hung      string // the node neither calls the source nor returns (what was recorded before is still valid)
+	spins     int    // OnReorg calls that did not move the head (logged up to a cap)
 }
 
 func (r *run) log(ev vh.J) int {
@@ -196,7 +202,7 @@ func (r *run) scanOutcomes() {
 		case err := <-d.persisted:
 			d.resolved = true
 			d.outcome = classify(err)
-			r.log(vh.J{"ev": "Obs", "rid": d.rid, "h": int(d.h), "tag": d.tag, "outcome": d.outcome})
+			r.log(vh.J{"ev": "Obs", "rid": d.rid, "h": int(d.h), "bh": int(d.bh), "r": d.r, "tag": d.tag, "outcome": d.outcome})
 		default:
 		}
 	}
@@ -214,14 +220,14 @@ func (r *run) onStored(n uint64) {
 	ev := vh.J{"ev": "Stored", "h": int(n), "rid": 0, "tag": -1, "bad": false, "hashok": false}
 	var d *delivery
 	for _, x := range r.deliv {
-		if x.resolved && x.outcome == "stored" && !x.accounted && x.h == n {
+		if x.resolved && x.outcome == "stored" && !x.accounted && x.bh == n {
 			d = x
 			break
 		}
 	}
 	if d != nil {
 		d.accounted = true
-		ev["rid"], ev["tag"], ev["bad"], ev["corr"], ev["ver"] = d.rid, d.tag, d.r == "bad", d.corr, d.ver
+		ev["rid"], ev["tag"], ev["bad"], ev["corr"], ev["ver"] = d.rid, d.tag, d.r == "bad" || d.r == "fg", d.corr, d.ver
 		want := r.w.blocks[d.tag].built.Block.Hash
 		ev["hashok"] = herr == nil && hdr.Number == n && hdr.Hash.Equal(want)
 	} else if herr == nil {
@@ -243,13 +249,24 @@ func (r *run) onReverted(n uint64) {
 	}
 	r.scanOutcomes()
 	ev := vh.J{"ev": "Reverted", "h": int(n), "tag": -1, "headok": false}
+	if herr == nil && height == n {
+		// RevertHead failed and revertHead() went on regardless (it ignores the error); a node doing
+		// this in a loop must not flood the recording
+		if r.spins++; r.spins > 50 {
+			return
+		}
+	}
 	if len(r.shadow) > 0 && int(n) == len(r.shadow)-1 {
 		ev["tag"] = r.shadow[len(r.shadow)-1]
-		r.shadow = r.shadow[:len(r.shadow)-1]
+		ok := false
 		if n == 0 {
-			ev["headok"] = herr != nil
+			ok = herr != nil
 		} else {
-			ev["headok"] = herr == nil && height == n-1
+			ok = herr == nil && height == n-1
+		}
+		ev["headok"] = ok
+		if ok {
+			r.shadow = r.shadow[:len(r.shadow)-1]
 		}
 	}
 	r.lastWrite = r.log(ev)
@@ -298,6 +315,12 @@ func (r *run) legal(rq *request, d *Decision) bool {
 	}
 	c := r.w.chain(d.Ver)
 	if rq.kind == "block" {
+		if d.R == "wh" {
+			return d.BH >= 0 && d.BH < len(c) && d.BH != int(rq.h) && int(rq.h) >= len(r.shadow)
+		}
+		if d.R == "fg" && int(rq.h) < len(r.shadow) {
+			return false
+		}
 		return int(rq.h) < len(c)
 	}
 	return d.SH >= 0 && d.SH < len(c)
@@ -327,15 +350,31 @@ func (r *run) release(rq *request, d Decision) {
 				ev["why"] = "injected"
 			}
 		default:
-			tag := r.w.chain(d.Ver)[rq.h]
+			bh := rq.h
+			if d.R == "wh" {
+				bh = uint64(d.BH)
+			}
+			tag := r.w.chain(d.Ver)[bh]
 			corr := ""
-			if d.R == "bad" {
+			old := r.w.oldFormat(tag)
+			switch d.R {
+			case "bad":
 				corr = d.Corr
+				if old && corr == "receipt" { // nothing in a pre-0.13.2 block commits to the receipts
+					corr = "timestamp"
+				}
+				if old && corr == "diff" { // ... nor to the state diff: verification cannot see it
+					d.R, corr = "fg", forgery
+				}
+			case "fg":
+				corr = forgery
+			}
+			if d.R != "ok" {
 				r.faults++
 			}
 			rp.cb = r.w.committed(tag, corr)
-			ev["ver"], ev["tag"], ev["corr"], ev["kind"] = d.Ver, tag, specCorr(corr), corr
-			dl := &delivery{rid: rq.rid, tag: tag, ver: d.Ver, h: rq.h, r: d.R, corr: corr, persisted: rp.cb.Persisted,
+			ev["r"], ev["ver"], ev["tag"], ev["bh"], ev["corr"], ev["kind"] = d.R, d.Ver, tag, int(bh), specCorr(corr), corr
+			dl := &delivery{rid: rq.rid, tag: tag, ver: d.Ver, h: rq.h, bh: bh, r: d.R, corr: corr, persisted: rp.cb.Persisted,
 				loop: int(rq.h) < len(r.shadow)}
 			dl.seq = r.log(ev)
 			r.deliv = append(r.deliv, dl)
@@ -424,11 +463,20 @@ func (r *run) randomAnswer(rq *request) Decision {
 		if r.rng.Intn(3) == 0 { // "ok-later": computed at an earlier version, delivered now
 			ver = vers[r.rng.Intn(len(vers))]
 		}
+		fetch := int(rq.h) >= len(r.shadow) // not a request of the revert loop
 		switch {
 		case budget && p < 0.07:
 			return Decision{R: "err"}
 		case budget && p < 0.15:
 			return Decision{R: "bad", Ver: ver, Corr: corruptions[r.rng.Intn(len(corruptions))]}
+		case budget && fetch && p < 0.19:
+			return Decision{R: "fg", Ver: ver}
+		case budget && fetch && p < 0.24 && len(r.w.chain(ver)) > 1:
+			bh := r.rng.Intn(len(r.w.chain(ver)) - 1)
+			if bh >= int(rq.h) {
+				bh++
+			}
+			return Decision{R: "wh", Ver: ver, BH: bh}
 		case int(rq.h) >= len(r.cur()) && p < 0.5: // gone from the current chain: "not found" is free
 			return Decision{R: "err"}
 		}
@@ -801,7 +849,11 @@ func execute(sc *Scenario, tr int) (*run, error) {
 	select {
 	case <-done:
 	case <-time.After(15 * time.Second):
-		return r, errors.New("Synchronizer.Run did not return after cancellation")
+		buf := make([]byte, 1<<18)
+		buf = buf[:runtime.Stack(buf, true)]
+		fmt.Fprintf(os.Stderr, "goroutines after cancellation:\n%s\n", buf)
+		r.hung = "Synchronizer.Run did not return within 15 s of its context being cancelled"
+		return r, nil
 	}
 	heads.Unsubscribe()
 	reorgs.Unsubscribe()
